@@ -13,17 +13,22 @@ def summary(obs):
     """what must be equal between the direct and the trait run of the same scenario (random values
     differ between two runs: compare shapes, statuses, call sequences and store sizes)"""
     out = []
+    fresh = {}                      # credential ids created during THIS run (random): compared by order of creation, their PRF secrets by presence
+    def cid(c):
+        return "fresh#%d" % fresh[c] if c in fresh else c
     def call(e):
         if e["c"] == "save":
             # everything the store is asked to save except the random parts (key, credential id, PRF secrets)
             p = e["p"]
+            fresh.setdefault(p["cred_id"], len(fresh))
             return "save" + json.dumps([e["r"], e["user"], e["rp"], e["opts"], p["rp_id"], p["user_handle"], p["counter"], p["hmac"] is not None,
                                         len(p["cred_id"])], sort_keys=True)
         if e["c"] == "update":
             p = e["p"]
-            return "update" + json.dumps([e["r"], p["cred_id"], p["rp_id"], p["user_handle"], p["counter"], p["hmac"]], sort_keys=True)
+            hm = p["hmac"] if p["cred_id"] not in fresh else (None if p["hmac"] is None else [p["hmac"]["w"] is not None, p["hmac"]["wo"] is not None])
+            return "update" + json.dumps([e["r"], cid(p["cred_id"]), p["rp_id"], p["user_handle"], p["counter"], hm], sort_keys=True)
         if e["c"] == "find":
-            return "find" + json.dumps([e["ids"], e["rp"], "ok" if "ok" in e["r"] else e["r"]], sort_keys=True)
+            return "find" + json.dumps([None if e["ids"] is None else [cid(i) for i in e["ids"]], e["rp"], "ok" if "ok" in e["r"] else e["r"]], sort_keys=True)
         return e["c"] + json.dumps(e.get("r"))
     for o in obs["ops"]:
         r = o["result"]
